@@ -215,7 +215,8 @@ func checkC12(ctx *Ctx, c *Case, units []*schema.Unit) error {
 		}
 		ctx.Label("param=" + param)
 	case "unknown-feature":
-		for _, param := range []string{"features=nosuch", "features=fast+nosuch", "features=", "features=protoc+FAST"} {
+		for _, param := range []string{"features=nosuch", "features=fast+nosuch", "features=", "features=protoc+FAST",
+			"features=all+nosuch", "features=nosuch+all", "features=all+", "features=fast+protoc+nosuch"} {
 			req, _ := uni.Request(param, "verif/kinds.proto")
 			res, err := plug.Run(bin, req, nil)
 			if err != nil {
